@@ -219,7 +219,10 @@ class Tensor(Funsor, metaclass=TensorMeta):
             return self
 
         # Handle diagonal variable substitution
-        var_counts = Counter(v for v in subs.values() if isinstance(v, Variable))
+        # (two values renaming onto the same name, variables or slices).
+        name_counts = Counter(
+            v.name for v in subs.values() if isinstance(v, (Variable, Slice))
+        )
         # A variable or slice is substituted by renaming only if its name does
         # not collide with an input that keeps its name during the renaming.
         renamed = {k for k, v in subs.items() if isinstance(v, (Variable, Slice))}
@@ -236,8 +239,8 @@ class Tensor(Funsor, metaclass=TensorMeta):
             (
                 k,
                 self.materialize(v)
-                if var_counts[v] > 1
-                or (isinstance(v, (Variable, Slice)) and k not in renamed)
+                if isinstance(v, (Variable, Slice))
+                and (name_counts[v.name] > 1 or k not in renamed)
                 else v,
             )
             for k, v in subs.items()
